@@ -361,7 +361,7 @@ func (s *State) evalIndexExpression(left object.Object, node *ast.IndexExpressio
 	if node.Token.Type() == token.DOT {
 		// index is the string value and not an identifier to resolve.
 		key := node.Index.Value()
-		if key.Type() != token.STRING && key.Type() != token.IDENT {
+		if key.Type() != token.STRING && key.Type() != token.IDENT && key.Type() != token.REGISTER { // m.n with n in a register: still the key "n".
 			return s.Errorf("index expression with . not string: %s", key.Literal())
 		}
 		return s.evalIndexExpressionIdx(left, object.String{Value: key.Literal()})
@@ -458,7 +458,7 @@ func (s *State) evalDelete(node ast.Node) object.Object {
 		idxE := node.(*ast.IndexExpression)
 		// index is the string value and not an identifier to resolve.
 		key := idxE.Index.Value()
-		if key.Type() != token.STRING && key.Type() != token.IDENT {
+		if key.Type() != token.STRING && key.Type() != token.IDENT && key.Type() != token.REGISTER { // m.n with n in a register: still the key "n".
 			return s.Errorf("del expression with . not a string: %s", key.Literal())
 		}
 		index := object.String{Value: key.Literal()}
